@@ -231,11 +231,84 @@ def a5(prog, ctx):
         ctx.ok("A5", "src/gtf2db.py:%d" % regs[0].lineno, "convert_db registers the entry after its own convert_fn call; earlier returns hand out validated entries")
 
 
+def a6(prog, ctx):
+    """A cache entry is valid only for files that are exactly as they were when it was written: recorded modification times are compared
+    for (in)equality, never with an order relation (a file another run is rewriting right now is 'newer')."""
+    n = 0
+    for m, q, f in prog.all_functions():
+        if m.rel not in ("src/gtf2db.py", "src/read_mapper.py"):
+            continue
+        for c in walk_no_nested(f):
+            if isinstance(c, ast.Compare) and any(isinstance(x, ast.Call) and (call_name(x) or "").endswith("getmtime") for x in ast.walk(c)):
+                n += 1
+                bad = [o for o in c.ops if not isinstance(o, (ast.Eq, ast.NotEq))]
+                if bad:
+                    ctx.fail("A6", c, q, src(c)[:90], "a recorded modification time is compared with %s instead of == / !=: a file that another run "
+                             "is converting into right now has a newer mtime and is accepted as the finished artefact of the cached conversion"
+                             % type(bad[0]).__name__)
+                else:
+                    ctx.ok("A6", "%s:%d" % (m.rel, c.lineno), "%s: mtime compared for (in)equality" % q)
+    ctx.floor("A6", "comparisons of recorded modification times", n, 8)
+
+
+def a7(prog, ctx):
+    """A cached conversion is looked up for THIS run's input: the database path handed to the validity test is the run's own, not
+    one taken from the cache."""
+    from ..engine import taint, argswap
+    entry = prog.func("src/gtf2db.py", "convert_db")
+    callee = prog.try_func("src/gtf2db.py", "compare_stored_gtf")
+    if callee is None:
+        raise AnalysisError("compare_stored_gtf not found")
+    cache_param = callee.args.args[0].arg if callee.args.args else None
+    n = 0
+    reported = set()
+    f = entry
+    for m, q, fn in prog.all_functions():
+        if m.rel != "src/gtf2db.py" or fn is callee:
+            continue
+        calls = [c for c in walk_no_nested(fn) if isinstance(c, ast.Call) and call_name(c) == "compare_stored_gtf"]
+        if not calls:
+            continue
+        # the cache object: what load_json_cache returned here, and whatever this function hands to the validity test as the cache
+        loaded = {st.targets[0].id for st in walk_no_nested(fn) if isinstance(st, ast.Assign) and isinstance(st.targets[0], ast.Name)
+                  and isinstance(st.value, ast.Call) and call_name(st.value) == "load_json_cache"}
+        for c in calls:
+            a = argswap.bind_args(c, callee).get(cache_param)
+            if isinstance(a, ast.Name):
+                loaded.add(a.id)
+        if not loaded:
+            ctx.undecided("A7", calls[0], q, "the cache object handed to compare_stored_gtf is not a plain local")
+            continue
+        for pth in flow.paths(fn):
+            def look(st, env, fn=fn):
+                nonlocal n
+                for c in (x for x in ast.walk(st) if isinstance(x, ast.Call) and call_name(x) == "compare_stored_gtf"):
+                    b = argswap.bind_args(c, callee)
+                    arg = next((v for k, v in b.items() if "db" in k and "gtfs" not in k and "converted" not in k), None)
+                    if arg is None:
+                        continue
+                    n += 1
+                    if "cache" in taint.influence(arg, env) and id(c) not in reported:
+                        reported.add(id(c))
+                        ctx.fail("A7", c, fn._qualname, src(c)[:90], "the database path given to the validity test (%s) is taken from the shared cache, "
+                                 "not from this run's own input: every intact record then validates itself and the run is handed a file that was "
+                                 "converted from another run's annotation" % src(arg)[:50])
+            taint.run(pth, {name: {"cache"} for name in loaded}, on_stmt=look)
+    if not reported:
+        ctx.ok("A7", "src/gtf2db.py:%d" % f.lineno, "compare_stored_gtf is always given the run's own database path")
+    ctx.floor("A7", "calls of compare_stored_gtf on the paths of the conversion look-up", n, 1)
+
+
 def run(prog, ctx):
     ctx.rule("A5", "every store_*(artefact, ...) call registers a local whose every reaching definition is a producer call of this run "
                    "(or a fresh path under args.output filled by a converter call in the same block); user-supplied or looked-up files "
                    "are never registered under the input's key")
     a5(prog, ctx)
+    ctx.rule("A6", "every comparison that involves os.path.getmtime(...) in the cache modules uses == or != only")
+    a6(prog, ctx)
+    ctx.rule("A7", "wherever compare_stored_gtf is called, the database path handed to it does not depend (influence propagation, path-wise) on "
+                   "the cache object (what load_json_cache returned / what is passed as the callee's cache argument): it is the run's own input")
+    a7(prog, ctx)
     ctx.rule("A1", "every write to a shared per-user cache file is an atomic publish: content goes to a temporary sibling and is "
                    "moved over the shared path with os.replace; never open(shared, 'w') + json.dump in place (directly or via a helper)")
     ctx.rule("A2", "every json.load of a shared cache file sits in try blocks that treat a missing or undecodable file as absent")
